@@ -10,6 +10,9 @@ NAMES = {0: 'FftPlan(n)(x[n2])', 1: 'FftPlanR(n)(x[n2])', 2: 'IfftPlan(n)(x[n2])
          40: 'xcorr(a[n], b[n2])', 41: 'finddelay(a[n], b[n2])', 42: 'peakloc(x[n], idx=n2, cyclic=n3)', 43: 'welch(x[n2], winlen n)', 44: 'stft(x[n2], nfft n)', 45: 'resample(x[n2], n, n3)',
          46: 'zeropad(x[n], n2)', 47: 'delayseq(x[n], n2)', 48: 'downsample(x[n], n2, phase n3)', 49: 'upsample(x[n], n2, phase n3)', 50: 'hilbert(x[n], n2)', 51: 'fft(x[n], n2)', 52: 'irfft(X[n2], n)',
          60: '*x.slice(i1,i2,step)', 61: 'x.slice(i1,i2,step) = scalar', 62: 'x.slice(i1,i2,step) = array[n2]', 63: '*const cmplx x.slice(i1,i2,step)',
+         64: 'stft(x[n2], hann(n), overlap n3, nfft n)', 65: 'istft(stft(x[n2], hann(n)), hann(n), overlap n3, n)', 66: 'iscola(hann(n), overlap n3)', 67: 'thd(power spectrum[n] peak at bin n2, nharm n3/2, aliased n3&1)',
+         68: 'snr(power spectrum[n] peak at bin n2, nharm n3/2, aliased n3&1)', 69: 'sinad(power spectrum[n] peak at bin n2)', 75: 'thd(tone[2n] at n2/(2n), nharm n3/2, aliased n3&1)', 76: 'snr(tone[2n] at n2/(2n), nharm n3/2, aliased n3&1)',
+         70: 'fft(cmplx x[n])', 71: 'fft(real x[n])', 72: 'rfft(x[n])', 73: 'ifft(x[n])', 74: 'irfft(X[n])',
          53: 'fir1(n, 0.3)', 54: 'window::hann(n)', 55: 'repelem(x[n], n2)', 56: 'flip(x[n])', 57: 'medfilt(x[n], n2)', 58: 'mscohere(x[n2], y[n2], winlen n)', 59: 'linspace(a, b, n)'}
 
 def rel(n): return sorted({0, 1, 2, 3, max(n - 1, 0), n, n + 1, 2 * n})
@@ -71,6 +74,19 @@ def programs(tier):
     for (n, n2) in [(1, 1), (3, 1), (3, 2), (2, 5), (0, 2)]: P.append((55, n, n2, 0))
     for (n, n2) in [(1, 3), (3, 3), (5, 3), (5, 4), (2, 5)]: P.append((57, n, n2, 0))
     for (n, n2) in [(4, 8), (4, 4), (4, 3), (8, 20), (2, 5)]: P.append((58, n, n2, 0))
+    for n in (4, 8):
+        for n3 in sorted({0, 1, n // 2, n - 1, n, n + 1, 2 * n}):
+            for n2 in (n, 3 * n): P.append((64, n, n2, n3)); P.append((65, n, n2, n3))
+            P.append((66, n, 0, n3))
+    for n in ((8, 9) if q else (4, 5, 8, 9, 16)):
+        for n2 in range(n):
+            for n3 in (2, 4, 5, 12, 13): P.append((67, n, n2, n3)); P.append((68, n, n2, n3))
+            P.append((69, n, n2, 0))
+    for n in ((8,) if q else (8, 12)):
+        for n2 in range(1, n + 1):
+            for n3 in (4, 5, 12, 13): P.append((75, n, n2, n3)); P.append((76, n, n2, n3))
+    for pid in (70, 71, 72, 73, 74):
+        for n in (0, 1, 2, 3): P.append((pid, n, 0, 0))
     return P
 
 def o_ub(spec, r, extra):
